@@ -39,8 +39,13 @@ def write(fmt, f, path):
         pass
 
 
+CRNAMES = {'cloud': 'CLOUD', 'rain': 'RAIN', 'snow': 'SNOW', 'graupel': 'GRAUPEL', 'cod': 'COD', 'precip': 'PRECIP'}
+
+
 def varnames(r):
     fmt = r['fmt']
+    if fmt == 'cloud_rain':
+        return [CRNAMES[k] for k in r['crvars']]
     if fmt == 'uamiv':
         return list(r['species'])
     if fmt == 'lateral_boundary':
@@ -60,6 +65,8 @@ def expected_var(r, name):
         return np.array([r['data'][t][si][ei] for t in range(n)], dtype='f4')
     key = {'HUM': 'data', 'KV': 'data', 'UNKNOWN': 'data', 'AIRTEMP': 'data', 'HGHT': 'hght', 'PRES': 'pres',
            'U': 'u', 'V': 'v'}.get(name)
+    if fmt == 'cloud_rain':
+        key = {v: k for k, v in CRNAMES.items()}[name]
     if name == 'SURFTEMP':
         return np.array([r['sfc'][t] for t in range(n)], dtype='f4')
     return np.array([[r[key][t][z] for z in range(r['nz'])] for t in range(n)], dtype='f4')
@@ -167,7 +174,14 @@ def recipe_diff(dec, r):
         return out
     if [tuple(x) for x in dec['times']] != [tuple(x) for x in r['times']]:
         out.append(('times', 'record times %r expected %r' % (dec['times'], r['times'])))
-    for key in ('data', 'hght', 'pres', 'u', 'v'):
+    if fmt == 'cloud_rain':
+        if (dec['nx'], dec['ny'], dec['nz']) != (r['nx'], r['ny'], r['nz']) or dec['cldhdr'] != r['cldhdr']:
+            out.append(('header-counts', 'header %r nx,ny,nz=%r expected %r %r' % (
+                dec['cldhdr'], (dec['nx'], dec['ny'], dec['nz']), r['cldhdr'], (r['nx'], r['ny'], r['nz']))))
+        if dec['crvars'] != r['crvars']:
+            out.append(('variables', 'variables per layer %r expected %r' % (dec['crvars'], r['crvars'])))
+            return out
+    for key in ('data', 'hght', 'pres', 'u', 'v') + tuple(CRNAMES):
         if key in r:
             for t in range(min(n, len(dec[key]))):
                 for z in range(r['nz']):
@@ -187,4 +201,73 @@ def decode(r, raw):
     dec = rf.CODECS[fmt][1]
     if fmt in ('uamiv', 'lateral_boundary'):
         return dec(raw)
+    if fmt == 'cloud_rain':
+        return dec(raw, len(r['crvars']))
     return dec(raw, r['ny'], r['nx'], r['nz'])
+
+
+# --------------------------------------------------------------------------
+# land-use files (no time axis)
+
+def open_lu(path, r, **kw):
+    core.load_lib()
+    from PseudoNetCDF.camxfiles import Memmaps
+    return Memmaps.landuse(path, r['ny'], r['nx'], **kw)
+
+
+def lu_expected(r):
+    """ordered (variable name, array) the reader should present"""
+    first = 'FLAND' if r['style'] == 'old' else 'LUCAT%02d' % r['nland']
+    return [(first, r['fland'])] + [(k, a) for k, a in r['others']]
+
+
+def lu_compare(f, r):
+    out = []
+    want = {'LANDUSE': r['nland'], 'ROW': r['ny'], 'COL': r['nx']}
+    for k, v in want.items():
+        if k not in f.dimensions or len(f.dimensions[k]) != v:
+            out.append(('dimension', '%s=%s expected %d' % (k, len(f.dimensions[k]) if k in f.dimensions else None, v)))
+    exp = lu_expected(r)
+    have = list(f.variables.keys())
+    if have != [k for k, a in exp]:
+        out.append(('variables', 'variables %r expected %r' % (have, [k for k, a in exp])))
+    for k, a in exp:
+        if k in have:
+            got = np.asarray(f.variables[k][...])
+            if not bits_equal(got, a):
+                out.append(('data', '%s: shape %r expected %r, first values %s expected %s' % (
+                    k, got.shape, a.shape, got.ravel()[:3], a.ravel()[:3])))
+    return out
+
+
+def lu_recipe_diff(dec, r):
+    out = []
+    if dec['style'] != r['style'] or dec['nland'] != r['nland']:
+        out.append(('style', 'style %s/%d expected %s/%d' % (dec['style'], dec['nland'], r['style'], r['nland'])))
+        return out
+    if not bits_equal(dec['fland'], r['fland']):
+        out.append(('values', 'land-use fractions differ'))
+    if [k for k, a in dec['others']] != [k for k, a in r['others']]:
+        out.append(('optional-records', 'optional records %r expected %r' % (
+            [k for k, a in dec['others']], [k for k, a in r['others']])))
+    else:
+        for (k, a), (k2, b) in zip(dec['others'], r['others']):
+            if not bits_equal(a, b):
+                out.append(('values', '%s differs' % k))
+    return out
+
+
+def lu_hand(r):
+    """a land-use file built in memory (non-contiguous arrays)"""
+    P = core.load_lib()
+    from PseudoNetCDF.core._variables import PseudoNetCDFVariable
+    f = P.PseudoNetCDFFile()
+    f.createDimension('LANDUSE', r['nland'])
+    f.createDimension('ROW', r['ny'])
+    f.createDimension('COL', r['nx'])
+    if r['style'] == 'old':
+        f._newstyle = False
+    for k, a in lu_expected(r):
+        dims = ('LANDUSE', 'ROW', 'COL') if a.ndim == 3 else ('ROW', 'COL')
+        f.variables[k] = PseudoNetCDFVariable(f, k, 'f', dims, values=np.asfortranarray(a), units='')
+    return f
